@@ -53,6 +53,9 @@ type c14Calib struct {
 
 var c14cal c14Calib
 
+// c14ZeroEvery is the (0, nil) cadence of the transport's reader for the current run (0 = never).
+var c14ZeroEvery int
+
 const (
 	c14StepCeil  = 20000.0  // ceiling of the calibrated step budget per byte (after the multiplier)
 	c14AllocCeil = 100000.0 // ceiling of the calibrated allocation budget per byte (after the multiplier)
@@ -302,9 +305,11 @@ func c14DecodeOnce(entry int, data []byte, tail error, tm map[string]reflect.Typ
 	case c14ReadFrom:
 		d := hessian.NewDecoder(nil, tm)
 		rd = NewSimReader(data, tail)
+		rd.ZeroEvery = c14ZeroEvery
 		call(func() (interface{}, error) { return d.ReadFrom(rd) })
 	case c14StreamBufio:
 		rd = NewSimReader(data, tail)
+		rd.ZeroEvery = c14ZeroEvery
 		d := hessian.NewDecoder(bufio.NewReaderSize(rd, bufSize), tm)
 		for i := 0; i < K; i++ {
 			if call(d.ReadObject) {
@@ -313,6 +318,7 @@ func c14DecodeOnce(entry int, data []byte, tail error, tm map[string]reflect.Typ
 		}
 	case c14StreamDirect:
 		rd = NewSimReader(data, tail)
+		rd.ZeroEvery = c14ZeroEvery
 		d := hessian.NewDecoder(rd, tm)
 		for i := 0; i < K; i++ {
 			if call(d.ReadObject) {
@@ -325,6 +331,7 @@ func c14DecodeOnce(entry int, data []byte, tail error, tm map[string]reflect.Typ
 	case c14SerReadFromRead:
 		s := hessian.NewSerializer(tm, nil)
 		rd = NewSimReader(data, tail)
+		rd.ZeroEvery = c14ZeroEvery
 		if !call(func() (interface{}, error) { return s.ReadFrom(rd) }) {
 			for i := 1; i < K; i++ {
 				if call(s.Read) {
@@ -476,6 +483,7 @@ func c14Leak(ch *Choices, cfg *RunCfg, o *Outcome) {
 func runC14(ch *Choices, cfg *RunCfg) (o *Outcome) {
 	o = newOutcome()
 	c14Calibrate()
+	c14ZeroEvery = 0
 	if ch.Intn(25, "mode.leak") == 1 {
 		c14Leak(ch, cfg, o)
 		return o
@@ -539,6 +547,10 @@ func runC14(ch *Choices, cfg *RunCfg) (o *Outcome) {
 	tm, tmName := c14TypeMap(ch)
 	entry := ch.Intn(nC14Entry, "entry")
 	bufSize := 16 << uint(ch.Intn(6, "bufsize"))
+	c14ZeroEvery = []int{0, 0, 0, 2, 3, 7}[ch.Intn(6, "reader.zeroevery")]
+	if c14ZeroEvery > 0 {
+		o.Probes["transport reader returns (0, nil) on some calls"]++
+	}
 	fp := NewFingerprint()
 	fp.Add(uint64(entry), hashBytes(valid), hashString(tmName))
 	o.Fingerprint = fp.Sum()
